@@ -32,6 +32,8 @@ pub enum PMsg {
     SelfExecute(u64),
     SelfClose(u64),
     SelfVote(u64, Vote),
+    /// pay the DEPOSIT token out of the multisig's own account (C15 worlds only)
+    SpendDep { rcpt: String, amount: u128 },
 }
 
 #[derive(Clone, Debug)]
@@ -129,6 +131,8 @@ pub struct World {
     pub fixed_voters: BTreeMap<String, u64>,
     pub fixed_requested: Vec<(String, u64)>,
     /// flex: shadow history of the group
+    /// deposit tokens paid out of the multisig account by its own executed proposals (C15)
+    pub dep_spent: u128,
     pub gmodel: BTreeMap<String, Timeline<Option<u64>>>,
     pub gchange_heights: BTreeSet<u64>,
     pub props: Vec<PropModel>,
@@ -281,6 +285,11 @@ impl World {
             PMsg::SelfExecute(id) => wasm_exec(&self.ms, &cw3_fixed_multisig::msg::ExecuteMsg::Execute { proposal_id: *id }, vec![]),
             PMsg::SelfClose(id) => wasm_exec(&self.ms, &cw3_fixed_multisig::msg::ExecuteMsg::Close { proposal_id: *id }, vec![]),
             PMsg::SelfVote(id, v) => wasm_exec(&self.ms, &cw3_fixed_multisig::msg::ExecuteMsg::Vote { proposal_id: *id, vote: *v }, vec![]),
+            PMsg::SpendDep { rcpt, amount } => match &self.dep {
+                Some(Dep { token: DepTok::Native(d), .. }) => BankMsg::Send { to_address: rcpt.clone(), amount: vec![coin(*amount, d.clone())] }.into(),
+                Some(Dep { token: DepTok::Cw20(t), .. }) => wasm_exec(t, &cw20::Cw20ExecuteMsg::Transfer { recipient: rcpt.clone(), amount: Uint128::new(*amount) }, vec![]),
+                None => wasm_exec(&self.sink, &SinkExec::Ping { id: "no-deposit-configured".into() }, vec![]),
+            },
         }
     }
 
@@ -468,6 +477,7 @@ impl Ms {
             dep: None,
             fixed_voters: BTreeMap::new(),
             fixed_requested: voters.clone(),
+            dep_spent: 0,
             gmodel: BTreeMap::new(),
             gchange_heights: BTreeSet::new(),
             props: vec![],
@@ -721,6 +731,13 @@ impl Ms {
                         10 => PMsg::SelfClose(pick_id(rng)),
                         _ => PMsg::SelfVote(pick_id(rng), Vote::Yes),
                     });
+                }
+                if let (true, Some(dep)) = (self.prop == "C15", &w.dep) {
+                    // the multisig votes to spend from the very account that holds the deposits
+                    if rng.chance(1, 5) {
+                        let rcpt = if rng.chance(1, 2) { w.stranger.clone() } else { rng.pick_cloned(&pl.actors) };
+                        msgs.push(PMsg::SpendDep { rcpt, amount: 1 + rng.below(2 * dep.amount.min(1 << 40) as u64) as u128 });
+                    }
                 }
                 let hgt = w.c.height();
                 let t = w.c.time_ns();
@@ -1651,6 +1668,17 @@ impl Ms {
                                 h.out.count("deposits_returned_on_execute");
                             }
                         }
+                        // proposal messages may spend the deposit token out of the multisig's account
+                        for id in &newly {
+                            for pm in w.props[*id as usize - 1].msgs.clone() {
+                                if let PMsg::SpendDep { rcpt, amount } = pm {
+                                    add(&rcpt, amount as i128);
+                                    add(&ms, -(amount as i128));
+                                    w.dep_spent = w.dep_spent.saturating_add(amount);
+                                    h.out.count("deposit_token_spent_by_proposal_messages");
+                                }
+                            }
+                        }
                         // proposal messages may close other proposals (the whole call succeeded, so
                         // every nested Close succeeded too): their deposits follow the Close rule
                         let mut nested_closed: Vec<u64> = vec![];
@@ -1719,8 +1747,8 @@ impl Ms {
                 // pool: multisig holds exactly the deposits not yet returned
                 let outstanding: u128 = w.props.iter().filter(|m| m.deposit_taken && m.deposit_returned == 0).count() as u128 * d;
                 let held = *dep_post.get(&ms).unwrap_or(&0);
-                if !h.check(held == outstanding, "C15/pool/multisig-holdings-differ-from-outstanding-deposits", || {
-                    format!("multisig holds {held}, deposits not yet returned sum to {outstanding}")
+                if !h.check(held as i128 == outstanding as i128 - w.dep_spent as i128, "C15/pool/multisig-holdings-differ-from-outstanding-deposits", || {
+                    format!("multisig holds {held}, deposits not yet returned sum to {outstanding}, its own proposals spent {}", w.dep_spent)
                 }) {
                     return false;
                 }
@@ -1760,6 +1788,11 @@ impl Ms {
             let ok = self.step(h, w, pre, &stranger, &Op::Close { id });
             if !ok {
                 return false;
+            }
+            if w.props[i].deposit_returned == 0 && w.dep_balance(w.ms.as_str()) < dep.amount {
+                // the multisig itself voted the deposit pool away: nothing left to return, not the contract's doing
+                h.out.count("recoverability_not_judged_pool_spent_by_proposals");
+                continue;
             }
             if w.props[i].deposit_returned == 0 {
                 let sig = if rejected_early || created_expired {
